@@ -194,6 +194,33 @@ def run(program, res, tier):
                             "value would be reported as a type violation", n.stmt)
     if not found:
         raise AnalysisError("_check_data_frame_matches_schema: per-cell _check_spec call not found")
+    # S4b: the cell scan covers every cell: it may be left early only on a recorded violation
+    d4 = depsmod.Deps(g, cm.params())
+    n_loops = 0
+    for loop in [n for n in g.stmt_nodes(("iter",))]:
+        body_calls = [c for c in ast.walk(loop.stmt) if isinstance(c, ast.Call) and isinstance(c.func, ast.Attribute) and c.func.attr == "_check_spec"]
+        if not body_calls:
+            continue
+        inner_loops = [x for x in ast.walk(loop.stmt) if isinstance(x, ast.For) and x is not loop.stmt and any(c in list(ast.walk(x)) for c in body_calls)]
+        if inner_loops:
+            continue  # examine the innermost loop that contains the call
+        n_loops += 1
+        exits = [n for n in g.stmt_nodes(("stmt", "return")) if isinstance(n.stmt, (ast.Break, ast.Return))
+                 and any(x is n.stmt for x in ast.walk(loop.stmt))]
+        for e in exits:
+            inner_guards = [(b, lab) for (b, lab) in g.lexical_guards(e) if any(x is b.stmt for x in ast.walk(loop.stmt)) and b is not loop]
+            roots = set()
+            for (b, _l) in inner_guards:
+                roots |= d4.cond_roots(b)
+            if "call:_check_spec" in roots:
+                res.ok("C22-S4", "the cell scan is left early only after a recorded type violation")
+            else:
+                res.fail_at("C22-S4", cm, "scan-stops-early",
+                            f"`{unparse(e.stmt)}` leaves the per-cell scan under a condition that does not depend on the type check's "
+                            f"result: later cells of the column are never examined, so a non-conforming value after a conforming one "
+                            f"goes unreported", e.stmt)
+    if n_loops == 0:
+        raise AnalysisError("_check_data_frame_matches_schema: cell scan loop not found")
     # ---- S5 missing column / missing argument reported
     txt = unparse(cm.node)
     miss_col = [n for n in ast.walk(cm.node) if isinstance(n, ast.If) and "not in" in unparse(n.test) and "col" in unparse(n.test)
